@@ -163,11 +163,16 @@ def replay_manager(arg):
             for name, v in (("accuracy", a), ("precision", p_), ("recall", r), ("f1", f)):
                 if not ratio_eq(v, sc[name]):
                     mism.append(("manager-frame-" + name, "frame %d: %s = %r, specification %s" % (k, name, v, sc[name]), rep))
+            if fr.metrics_score.num_ground_truth != len(gts):
+                mism.append(("manager-frame-gt-count", "frame %d: num_ground_truth %r for %d ground truths" % (k, fr.metrics_score.num_ground_truth, len(gts)), rep))
             pf = fr.pass_fail_result
             if len(pf.tp_object_results) + len(pf.fp_object_results) != len(fr.object_results):
                 mism.append(("manager-results-not-tp-plus-fp", "frame %d: %d results, %d TP + %d FP" % (k, len(fr.object_results), len(pf.tp_object_results), len(pf.fp_object_results)), rep))
         if len({frozenset((vid(r.estimated_object), vid(r.ground_truth_object) if r.ground_truth_object is not None else 0) for r in f_.object_results) for f_ in mgr.frame_results}) == 1:
-            a, p_, r, f = mgr.get_scene_result().classification_scores[0]._summarize()
+            scene = mgr.get_scene_result()
+            if scene.num_ground_truth != 2 * len(gts):
+                mism.append(("manager-scene-gt-count", "two frames: scene num_ground_truth %r, specification %d" % (scene.num_ground_truth, 2 * len(gts)), rep))
+            a, p_, r, f = scene.classification_scores[0]._summarize()
             for name, v in (("accuracy", a), ("precision", p_), ("recall", r), ("f1", f)):
                 if not ratio_eq(v, sc[name]):
                     mism.append(("manager-scene-" + name, "two identical frames: scene %s = %r, specification %s" % (name, v, sc[name]), rep))
